@@ -73,16 +73,23 @@ fn complete_payment(seed: u64) {
             };
             let bf = sym_scalar("cand_bf");
             let cbf: RevocationLockBlindingFactor = decode(&bf.to_bytes()).expect("blinding factor");
-            sx::set_label("complete");
-            let n0 = sx::n_decisions();
-            sx::force_seq(vec![want]);
-            let nd = sx::with(|a| a.draws.len());
-            let res = p.unrev.complete_payment(&mut rng, &cand, &cbf);
-            if sx::n_decisions() - n0 != 1 {
-                sx::force_seq(vec![]);
-                eng::inconclusive(&format!("{}: made {} decisions (expected one opening check)", name, sx::n_decisions() - n0));
+            // probe the comparison sequence of the opening check on a throw-away parameter copy: a generic candidate fails
+            // its last comparison; the accepting variant flips exactly that one
+            sx::set_label("probe");
+            let np = sx::n_decisions();
+            let _ = commitment_of(G1Projective(p.c_rl)).verify_opening(w.merchant.revocation_commitment_parameters(), bf_of(bf), &Message::new([atom_scalar(&cat, "lock")]));
+            let mut seq: Vec<bool> = decisions_since(np).iter().map(|d| d.outcome).collect();
+            if seq.is_empty() {
+                eng::finding("C05 opening-not-checked", "verify_opening made no comparison on a generic candidate", None, json!({"kind":"model"}));
                 return;
             }
+            let last = seq.len() - 1;
+            seq[last] = want;
+            sx::set_label("complete");
+            sx::force_seq(seq);
+            let nd = sx::with(|a| a.draws.len());
+            let res = p.unrev.complete_payment(&mut rng, &cand, &cbf);
+            sx::force_seq(vec![]);
             let lock = atom_scalar(&cat, "lock");
             let opens = eq(p.c_rl, atom_scalar(&rev, "h") * bf + atom_scalar(&rev, "gs.0") * lock);
             match res {
